@@ -14,7 +14,10 @@ from ..core import dav, davsys, explore
 from ..core.davsys import Config, DavSys, nl, sha
 from ..core.report import Reporter
 
-KINDS = ["a", "b", "ghost", "pct-a", "dslash-a", "abs-a", "abs-other-host-a", "ab-member", "collection", "outside-prefix-a", "confusable-prefix-a", "glued-prefix-a", "empty", "pct-slash-a"]
+KINDS = ["a", "b", "ghost", "pct-a", "dslash-a", "abs-a", "abs-other-host-a", "ab-member", "collection", "outside-prefix-a", "confusable-prefix-a", "glued-prefix-a", "empty", "pct-slash-a",
+         "missing-coll-a", "missing-coll-b", "item-as-parent-a", "item-as-parent-b"]
+# the kinds whose parent is not a collection, together with the real members: all triples of these are always enumerated
+FOCUS = ["a", "b", "missing-coll-a", "missing-coll-b", "item-as-parent-a", "item-as-parent-b"]
 
 
 def hrefs_for(s, cfg):
@@ -35,6 +38,10 @@ def hrefs_for(s, cfg):
         "glued-prefix-a": (p + davsys.COLL_PATHS["cal"].lstrip("/") + "a.ics") if p else None,
         "empty": "",
         "pct-slash-a": p + "/user/calendars/calendar%2Fa.ics",
+        "missing-coll-a": p + "/user/calendars/nope/a.ics",
+        "missing-coll-b": p + "/user/calendars/nope/b.ics",
+        "item-as-parent-a": base + "a.ics/a.ics",
+        "item-as-parent-b": base + "a.ics/b.ics",
     }
     return {k: v for k, v in out.items() if v is not None}
 
@@ -109,6 +116,8 @@ def _state_group(args):
         lists = []
         for n in range(1, maxlen + 1):
             lists.extend(itertools.product(kinds, repeat=n))
+        if maxlen < 3:
+            lists.extend(itertools.product([k for k in FOCUS if k in kinds], repeat=3))
         for report in ("calendar", "addressbook"):
             dataprop_kind = "text/calendar" if report == "calendar" else "text/vcard"
             for klist in lists:
